@@ -23,6 +23,7 @@ ORACLES = {
         'stdlib::py_mod': ['stdlib::py_mod'], 'stdlib::py_floor_div': ['stdlib::py_floor_div'], 'stdlib::py_div': ['stdlib::py_div'],
         'emit::determine_binop_plan': ['incan::binop_plan'], 'emit::emit_binop_token': ['incan::binop_plan'],
         'emit::emit_binop_expr': ['incan::emit_division'], 'emit::NumericConversion::apply': ['incan::emit_division'],
+        'parser::compound_assignment(field)': ['incan::emit_division'], 'parser::compound_assignment(index)': ['incan::emit_division'],
         '*': ['core::py_mod_i64_impl', 'core::py_floor_div_i64_impl', 'stdlib::py_mod_i64', 'stdlib::py_floor_div_i64', 'stdlib::py_mod',
               'stdlib::py_floor_div', 'stdlib::py_div', 'core::py_mod_f64_impl', 'stdlib::py_mod_f64', 'stdlib::py_floor_div_f64',
               'incan::binop_plan', 'incan::emit_division'],
@@ -58,6 +59,7 @@ ORACLES = {
         'checker::check_binary': ['incan::static_type'],
         'emit::emit_binop_expr': ['incan::emit_promotion'], 'emit::NumericConversion::apply': ['incan::emit_promotion'],
         'emit::try_emit_static_str_add': ['incan::emit_promotion'],
+        'parser::compound_assignment(field)': ['incan::compound_assign'], 'parser::compound_assignment(index)': ['incan::compound_assign'],
         'lowering::lower_statement(CompoundAssignment)': ['incan::emit_promotion', 'incan::compound_assign'],
         'lowering::lower_expr(Binary)': ['incan::emit_promotion', 'incan::static_type'],
         'checker::types_compatible(int/float)': ['incan::static_type'], 'checker::check_return': ['incan::static_type'], 'checker::eval_const_expr(arithmetic)': ['incan::static_type'], 'checker::check_assignment': ['incan::static_type'],
